@@ -262,4 +262,559 @@ structure IsTransversal (nodes : List Nat) (arc : Nat → Nat → Bool) (R : Lis
   apart : R.Pairwise (fun r r' => ¬ Reach nodes arc r r')
   cover : ∀ v ∈ nodes, ∃ r ∈ R, Reach nodes arc r v
 
+/-! ### the symmetric adjacency built by the double loop -/
+
+theorem aget_init (l : List Nat) (v : Nat) :
+    aget (l.map fun v => (v, ([] : List Nat))) v [] = [] := by
+  induction l with
+  | nil => rfl
+  | cons a l ih => simp only [List.map_cons, aget]; split <;> simp [ih]
+
+theorem mem_insNb {adj : List (Nat × List Nat)} {a b v w : Nat} :
+    w ∈ aget (insNb adj a b) v [] ↔ w ∈ aget adj v [] ∨ (v = a ∧ w = b) := by
+  unfold insNb
+  simp only
+  split
+  · rename_i h
+    have hb : b ∈ aget adj a [] := by simpa using h
+    constructor
+    · intro hw; exact Or.inl hw
+    · rintro (hw | ⟨rfl, rfl⟩)
+      · exact hw
+      · exact hb
+  · rw [aget_aset]
+    by_cases hav : a = v
+    · subst hav; simp [eq_comm]
+    · simp [hav, Ne.symm hav]
+
+theorem nodup_insNb {adj : List (Nat × List Nat)} {a b : Nat} (h : ∀ v, (aget adj v []).Nodup) :
+    ∀ v, (aget (insNb adj a b) v []).Nodup := by
+  intro v
+  unfold insNb
+  simp only
+  split
+  · exact h v
+  · rename_i hc
+    rw [aget_aset]
+    split
+    · have hb : b ∉ aget adj a [] := by simpa using hc
+      rw [List.nodup_append]
+      refine ⟨h a, by simp, ?_⟩
+      intro x hx y hy
+      simp only [List.mem_singleton] at hy
+      subst hy; intro hxy; subst hxy; exact hb hx
+    · exact h v
+
+/-- one iteration of the inner loop of `buildAdj` -/
+def edgeStep (G : Graph) (adj : List (Nat × List Nat)) (p : Nat × Nat) : List (Nat × List Nat) :=
+  if G.nodes.contains p.2 && p.2 != p.1 then addEdge adj p.1 p.2 else adj
+
+theorem buildAdj_eq (G : Graph) :
+    buildAdj G = (G.nodes.flatMap fun v => (G.nb v).map fun w => (v, w)).foldl (edgeStep G)
+      (G.nodes.map fun v => (v, [])) := by
+  unfold buildAdj
+  rw [List.foldl_flatMap]
+  congr 1
+  funext adj v
+  rw [List.foldl_map]
+  rfl
+
+theorem fold_edges_mem (G : Graph) : ∀ (E : List (Nat × Nat)) (adj : List (Nat × List Nat)) (v w : Nat),
+    w ∈ aget (E.foldl (edgeStep G) adj) v [] ↔
+      w ∈ aget adj v [] ∨ ∃ p ∈ E, (G.nodes.contains p.2 && p.2 != p.1) = true ∧
+        ((v = p.1 ∧ w = p.2) ∨ (v = p.2 ∧ w = p.1)) := by
+  intro E
+  induction E with
+  | nil => intro adj v w; simp
+  | cons p E ih =>
+    intro adj v w
+    rw [List.foldl_cons, ih]
+    unfold edgeStep
+    split
+    · rename_i hc
+      unfold addEdge
+      rw [mem_insNb, mem_insNb]
+      constructor
+      · rintro (((h | h) | h) | h)
+        · exact Or.inl h
+        · exact Or.inr ⟨p, List.mem_cons_self, hc, Or.inl h⟩
+        · exact Or.inr ⟨p, List.mem_cons_self, hc, Or.inr h⟩
+        · obtain ⟨q, hq, h⟩ := h
+          exact Or.inr ⟨q, List.mem_cons_of_mem _ hq, h⟩
+      · rintro (h | ⟨q, hq, hqc, h⟩)
+        · exact Or.inl (Or.inl (Or.inl h))
+        · rcases List.mem_cons.1 hq with rfl | hq
+          · rcases h with h | h
+            · exact Or.inl (Or.inl (Or.inr h))
+            · exact Or.inl (Or.inr h)
+          · exact Or.inr ⟨q, hq, hqc, h⟩
+    · rename_i hc
+      constructor
+      · rintro (h | ⟨q, hq, h⟩)
+        · exact Or.inl h
+        · exact Or.inr ⟨q, List.mem_cons_of_mem _ hq, h⟩
+      · rintro (h | ⟨q, hq, hqc, h⟩)
+        · exact Or.inl h
+        · rcases List.mem_cons.1 hq with rfl | hq
+          · exact absurd hqc hc
+          · exact Or.inr ⟨q, hq, hqc, h⟩
+
+theorem fold_edges_nodup (G : Graph) : ∀ (E : List (Nat × Nat)) (adj : List (Nat × List Nat)),
+    (∀ v, (aget adj v []).Nodup) → ∀ v, (aget (E.foldl (edgeStep G) adj) v []).Nodup := by
+  intro E
+  induction E with
+  | nil => intro adj h; exact h
+  | cons p E ih =>
+    intro adj h
+    rw [List.foldl_cons]
+    apply ih
+    unfold edgeStep
+    split
+    · unfold addEdge; exact nodup_insNb (nodup_insNb h)
+    · exact h
+
+/-- `sadj` is the symmetric closure of the neighbour relation on the node set, self loops dropped -/
+theorem mem_sadj (G : Graph) (v w : Nat) :
+    w ∈ G.sadj v ↔ v ≠ w ∧ (G.arc v w = true ∨ G.arc w v = true) := by
+  unfold Graph.sadj
+  rw [buildAdj_eq, fold_edges_mem, aget_init]
+  simp only [List.not_mem_nil, false_or, List.mem_flatMap, List.mem_map, Graph.arc, Bool.and_eq_true,
+    List.contains_iff_mem, bne_iff_ne, ne_eq]
+  constructor
+  · rintro ⟨p, ⟨a, ha, b, hb, rfl⟩, ⟨hbn, hne⟩, h⟩
+    simp only at hbn hne h
+    rcases h with ⟨rfl, rfl⟩ | ⟨rfl, rfl⟩
+    · exact ⟨fun h => hne h.symm, Or.inl ⟨⟨ha, hbn⟩, hb⟩⟩
+    · exact ⟨hne, Or.inr ⟨⟨ha, hbn⟩, hb⟩⟩
+  · rintro ⟨hne, ⟨⟨hv, hw⟩, hwv⟩ | ⟨⟨hw, hv⟩, hvw⟩⟩
+    · exact ⟨(v, w), ⟨v, hv, w, hwv, rfl⟩, ⟨hw, fun h => hne h.symm⟩, Or.inl ⟨rfl, rfl⟩⟩
+    · exact ⟨(w, v), ⟨w, hw, v, hvw, rfl⟩, ⟨hv, hne⟩, Or.inr ⟨rfl, rfl⟩⟩
+
+theorem nodup_sadj (G : Graph) (v : Nat) : (G.sadj v).Nodup := by
+  unfold Graph.sadj
+  rw [buildAdj_eq]
+  apply fold_edges_nodup
+  intro v; rw [aget_init]; exact List.nodup_nil
+
+theorem sadj_sub (G : Graph) {v w : Nat} (h : w ∈ G.sadj v) : w ∈ G.nodes := by
+  rcases ((mem_sadj G v w).1 h).2 with h | h <;>
+    simp only [Graph.arc, Bool.and_eq_true, List.contains_iff_mem] at h
+  · exact h.1.2
+  · exact h.1.1
+
+/-- the degree used by every mirror is the definitional degree -/
+theorem length_sadj (G : Graph) (hn : G.nodes.Nodup) (v : Nat) : (G.sadj v).length = degIn G G.nodes v := by
+  unfold degIn
+  apply List.Perm.length_eq
+  rw [List.perm_ext_iff_of_nodup (nodup_sadj G v) (hn.sublist List.filter_sublist)]
+  intro w
+  rw [mem_sadj, List.mem_filter]
+  simp only [Bool.and_eq_true, bne_iff_ne, ne_eq, Bool.or_eq_true]
+  constructor
+  · rintro ⟨hne, h⟩
+    exact ⟨sadj_sub G ((mem_sadj G v w).2 ⟨hne, h⟩), fun h' => hne h'.symm, h⟩
+  · rintro ⟨_, hne, h⟩
+    exact ⟨fun h' => hne h'.symm, h⟩
+
+/-! ### Louvain bookkeeping: `node_to_comm` / `comm_nodes` stay a partition -/
+
+theorem getD_of_lt {α} (l : List α) {i : Nat} (h : i < l.length) (d : α) : l.getD i d = l[i] := by
+  rw [List.getD_eq_getElem?_getD, List.getElem?_eq_getElem h, Option.getD_some]
+
+theorem getD_of_ge {α} (l : List α) {i : Nat} (h : l.length ≤ i) (d : α) : l.getD i d = d := by
+  rw [List.getD_eq_getElem?_getD, List.getElem?_eq_none h, Option.getD_none]
+
+/-- the bookkeeping invariant of the local-moving loop -/
+structure LInv {α} (nodes : List Nat) (st : LSt α) : Prop where
+  len   : st.cnodes.length = nodes.length
+  lt    : ∀ v ∈ nodes, aget st.n2c v 0 < nodes.length
+  iff   : ∀ v ∈ nodes, ∀ i, i < nodes.length → (v ∈ st.cnodes.getD i [] ↔ aget st.n2c v 0 = i)
+  sub   : ∀ i, ∀ v ∈ st.cnodes.getD i [], v ∈ nodes
+  nodup : ∀ i, (st.cnodes.getD i []).Nodup
+
+theorem moveNode_inv {α} (O : Ops α) {nodes : List Nat} {st : LSt α} (h : LInv nodes st)
+    {v best : Nat} (hv : v ∈ nodes) (hb : best < nodes.length) (vdeg : α) :
+    LInv nodes (moveNode O st v best vdeg) := by
+  have hcn : ∀ i, (moveNode O st v best vdeg).cnodes.getD i [] =
+      if i = best ∧ i < nodes.length then
+        addSet (if i = aget st.n2c v 0 ∧ i < nodes.length then (st.cnodes.getD i []).erase v else st.cnodes.getD i []) v
+      else (if i = aget st.n2c v 0 ∧ i < nodes.length then (st.cnodes.getD i []).erase v else st.cnodes.getD i []) := by
+    intro i
+    simp only [moveNode, lInsert, lRemove, getD_modAt, length_modAt, h.len]
+  have hn2c : ∀ u, aget (moveNode O st v best vdeg).n2c u 0 = if v = u then best else aget st.n2c u 0 := by
+    intro u; simp only [moveNode, lInsert, lRemove, aget_aset]
+  constructor
+  · simp only [moveNode, lInsert, lRemove, length_modAt, h.len]
+  · intro u hu
+    rw [hn2c]; split
+    · exact hb
+    · exact h.lt u hu
+  · intro u hu i hi
+    rw [hcn, hn2c]
+    by_cases huv : v = u
+    · subst huv
+      simp only [if_true]
+      by_cases hib : i = best
+      · subst hib
+        simp only [true_and, hi, if_true, mem_addSet, or_true]
+      · have hbi : best ≠ i := fun h' => hib h'.symm
+        simp only [hib, false_and, if_false, hbi, iff_false]
+        split
+        · intro hmem
+          exact ((h.nodup i).mem_erase_iff.1 hmem).1 rfl
+        · rename_i hc
+          intro hmem
+          have := (h.iff v hv i hi).1 hmem
+          exact hc ⟨this.symm, hi⟩
+    · simp only [huv, if_false]
+      have hne : u ≠ v := fun h' => huv h'.symm
+      rw [← h.iff u hu i hi]
+      split
+      · rw [mem_addSet]
+        split
+        · rw [List.mem_erase_of_ne hne]; simp [hne]
+        · simp [hne]
+      · split
+        · rw [List.mem_erase_of_ne hne]
+        · rfl
+  · intro i u hu
+    rw [hcn] at hu
+    have hsub2 : ∀ x, x ∈ (if i = aget st.n2c v 0 ∧ i < nodes.length then (st.cnodes.getD i []).erase v
+        else st.cnodes.getD i []) → x ∈ nodes := by
+      intro x hx
+      split at hx
+      · exact h.sub i x (List.mem_of_mem_erase hx)
+      · exact h.sub i x hx
+    split at hu
+    · rcases mem_addSet.1 hu with hu | rfl
+      · exact hsub2 u hu
+      · exact hv
+    · exact hsub2 u hu
+  · intro i
+    rw [hcn]
+    have hnd2 : (if i = aget st.n2c v 0 ∧ i < nodes.length then (st.cnodes.getD i []).erase v
+        else st.cnodes.getD i []).Nodup := by
+      split
+      · exact (h.nodup i).erase v
+      · exact h.nodup i
+    split
+    · exact nodup_addSet hnd2
+    · exact hnd2
+
+theorem nodup_getElem_inj {l : List Nat} (hn : l.Nodup) {i j : Nat} (hi : i < l.length) (hj : j < l.length)
+    (h : l[i] = l[j]) : i = j := by
+  have hp := List.pairwise_iff_getElem.1 hn
+  rcases Nat.lt_trichotomy i j with hlt | heq | hgt
+  · exact absurd h (hp i j hi hj hlt)
+  · exact heq
+  · exact absurd h.symm (hp j i hj hi hgt)
+
+theorem aget_zipIdx : ∀ (l : List Nat) (k : Nat), l.Nodup → ∀ (i : Nat) (h : i < l.length),
+    aget ((l.zipIdx k).map fun p => (p.1, p.2)) l[i] 0 = k + i := by
+  intro l
+  induction l with
+  | nil => intro k _ i h; cases h
+  | cons a l ih =>
+    intro k hn i h
+    rw [List.nodup_cons] at hn
+    simp only [List.zipIdx_cons, List.map_cons, aget]
+    cases i with
+    | zero => simp
+    | succ i =>
+      have hlt : i < l.length := by simpa using h
+      have hne : a ≠ l[i] := fun heq => hn.1 (heq ▸ List.getElem_mem hlt)
+      simp only [List.getElem_cons_succ, if_neg hne]
+      rw [ih (k + 1) hn.2 i hlt]; omega
+
+theorem lInit_inv {α} (O : Ops α) (G : Graph) (hn : G.nodes.Nodup) : LInv G.nodes (lInit O G) := by
+  have hget : ∀ i, (lInit O G).cnodes.getD i [] = if h : i < G.nodes.length then [G.nodes[i]] else [] := by
+    intro i
+    simp only [lInit]
+    split
+    · rename_i h
+      rw [getD_of_lt _ (by simpa using h)]; simp
+    · rename_i h
+      rw [getD_of_ge _ (by simpa using h)]
+  have hidx : ∀ (i : Nat) (h : i < G.nodes.length), aget (lInit O G).n2c G.nodes[i] 0 = i := by
+    intro i h
+    have := aget_zipIdx G.nodes 0 hn i h
+    simpa [lInit] using this
+  constructor
+  · simp [lInit]
+  · intro v hv
+    obtain ⟨i, hi, rfl⟩ := List.getElem_of_mem hv
+    rw [hidx i hi]; exact hi
+  · intro v hv i hi
+    obtain ⟨j, hj, rfl⟩ := List.getElem_of_mem hv
+    rw [hget, dif_pos hi, hidx j hj, List.mem_singleton]
+    constructor
+    · intro he; exact nodup_getElem_inj hn hj hi he
+    · intro he; subst he; rfl
+  · intro i v hv
+    rw [hget] at hv
+    split at hv
+    · simp only [List.mem_singleton] at hv; subst hv; exact List.getElem_mem _
+    · cases hv
+  · intro i
+    rw [hget]; split <;> simp
+
+theorem mem_aset_key {α} {m : List (Nat × α)} {k : Nat} {x : α} {p : Nat × α} (h : p ∈ aset m k x) :
+    p.1 = k ∨ ∃ q ∈ m, q.1 = p.1 := by
+  induction m with
+  | nil => simp only [aset, List.mem_singleton] at h; subst h; exact Or.inl rfl
+  | cons a m ih =>
+    obtain ⟨a1, a2⟩ := a
+    simp only [aset] at h
+    split at h
+    · rcases List.mem_cons.1 h with rfl | h
+      · exact Or.inl rfl
+      · exact Or.inr ⟨p, List.mem_cons_of_mem _ h, rfl⟩
+    · rcases List.mem_cons.1 h with rfl | h
+      · exact Or.inr ⟨_, List.mem_cons_self, rfl⟩
+      · rcases ih h with h | ⟨q, hq, h⟩
+        · exact Or.inl h
+        · exact Or.inr ⟨q, List.mem_cons_of_mem _ hq, h⟩
+
+theorem commEdges_keys {α} (O : Ops α) (n2c : List (Nat × Nat)) (nbrs : List Nat) :
+    ∀ p ∈ commEdges O n2c nbrs, ∃ w ∈ nbrs, p.1 = aget n2c w 0 := by
+  unfold commEdges
+  have gen : ∀ (l : List Nat) (ce : List (Nat × α)) (P : Nat → Prop),
+      (∀ p ∈ ce, P p.1) → (∀ w ∈ l, P (aget n2c w 0)) →
+      ∀ p ∈ l.foldl (fun ce w =>
+        let c := aget n2c w 0
+        aset ce c (O.add (aget ce c (O.ofNat 0)) (O.ofNat 1))) ce, P p.1 := by
+    intro l
+    induction l with
+    | nil => intro ce P h _ p hp; exact h p hp
+    | cons w l ih =>
+      intro ce P h hl p hp
+      rw [List.foldl_cons] at hp
+      refine ih _ P ?_ (fun x hx => hl x (List.mem_cons_of_mem _ hx)) p hp
+      intro q hq
+      rcases mem_aset_key hq with h1 | ⟨r, hr, h1⟩
+      · rw [h1]; exact hl w List.mem_cons_self
+      · rw [← h1]; exact h r hr
+  intro p hp
+  exact gen nbrs [] (fun c => ∃ w ∈ nbrs, c = aget n2c w 0) (by simp) (fun w hw => ⟨w, hw, rfl⟩) p hp
+
+theorem chooseComm_mem {α} (O : Ops α) (γ tw vdeg : α) (cur : Nat) (ce : List (Nat × α)) (cdeg : List α) :
+    chooseComm O γ tw vdeg cur ce cdeg = cur ∨ ∃ p ∈ ce, chooseComm O γ tw vdeg cur ce cdeg = p.1 := by
+  have gen : ∀ (l : List (Nat × α)) (init : Nat × α),
+      (l.foldl (fun (bg : Nat × α) p =>
+        let gain := lGain O γ tw vdeg p.2 (cdeg.getD p.1 (O.ofNat 0))
+        if O.lt bg.2 gain then (p.1, gain) else bg) init).1 = init.1 ∨
+      ∃ p ∈ l, (l.foldl (fun (bg : Nat × α) p =>
+        let gain := lGain O γ tw vdeg p.2 (cdeg.getD p.1 (O.ofNat 0))
+        if O.lt bg.2 gain then (p.1, gain) else bg) init).1 = p.1 := by
+    intro l
+    induction l with
+    | nil => intro init; exact Or.inl rfl
+    | cons q l ih =>
+      intro init
+      rw [List.foldl_cons]
+      simp only
+      by_cases hlt : O.lt init.2 (lGain O γ tw vdeg q.2 (cdeg.getD q.1 (O.ofNat 0))) = true
+      · rw [if_pos hlt]
+        rcases ih (q.1, lGain O γ tw vdeg q.2 (cdeg.getD q.1 (O.ofNat 0))) with h | ⟨p, hp, h⟩
+        · exact Or.inr ⟨q, List.mem_cons_self, h⟩
+        · exact Or.inr ⟨p, List.mem_cons_of_mem _ hp, h⟩
+      · rw [if_neg hlt]
+        rcases ih init with h | ⟨p, hp, h⟩
+        · exact Or.inl h
+        · exact Or.inr ⟨p, List.mem_cons_of_mem _ hp, h⟩
+  unfold chooseComm
+  simp only
+  rcases gen ce (cur, O.ofNat 0) with h | ⟨p, hp, h⟩
+  · left
+    split
+    · split
+      · rfl
+      · exact h
+    · exact h
+  · split
+    · split
+      · exact Or.inl rfl
+      · exact Or.inr ⟨p, hp, h⟩
+    · exact Or.inr ⟨p, hp, h⟩
+
+theorem lNodeStep_inv {α} (O : Ops α) (G : Graph) (γ tw : α) {st : LSt α} (h : LInv G.nodes st)
+    {v : Nat} (hv : v ∈ G.nodes) : LInv G.nodes (lNodeStep O G.sadj γ tw st v).1 := by
+  have hbest : chooseComm O γ tw (O.ofNat (G.sadj v).length) (aget st.n2c v 0)
+      (commEdges O st.n2c (G.sadj v))
+      (lRemove O st v (aget st.n2c v 0) (O.ofNat (G.sadj v).length)).cdeg < G.nodes.length := by
+    rcases chooseComm_mem O γ tw (O.ofNat (G.sadj v).length) (aget st.n2c v 0)
+      (commEdges O st.n2c (G.sadj v))
+      (lRemove O st v (aget st.n2c v 0) (O.ofNat (G.sadj v).length)).cdeg with h1 | ⟨p, hp, h1⟩
+    · rw [h1]; exact h.lt v hv
+    · rw [h1]
+      obtain ⟨w, hw, hpw⟩ := commEdges_keys O st.n2c (G.sadj v) p hp
+      rw [hpw]; exact h.lt w (sadj_sub G hw)
+  exact moveNode_inv O h hv hbest _
+
+theorem lPass_inv {α} (O : Ops α) (G : Graph) (γ tw : α) {st : LSt α} (h : LInv G.nodes st) :
+    LInv G.nodes (lPass O G.sadj γ tw G.nodes st).1 := by
+  unfold lPass
+  have gen : ∀ (l : List Nat) (acc : LSt α × Bool), (∀ v ∈ l, v ∈ G.nodes) → LInv G.nodes acc.1 →
+      LInv G.nodes (l.foldl (fun (acc : LSt α × Bool) v =>
+        let r := lNodeStep O G.sadj γ tw acc.1 v
+        (r.1, acc.2 || r.2)) acc).1 := by
+    intro l
+    induction l with
+    | nil => intro acc _ h; exact h
+    | cons v l ih =>
+      intro acc hl hacc
+      rw [List.foldl_cons]
+      exact ih _ (fun x hx => hl x (List.mem_cons_of_mem _ hx))
+        (lNodeStep_inv O G γ tw hacc (hl v List.mem_cons_self))
+  exact gen G.nodes (st, false) (fun v hv => hv) h
+
+theorem lLoop_inv {α} (O : Ops α) (G : Graph) (γ tw : α) : ∀ (fuel : Nat) (st : LSt α) (it : Nat),
+    LInv G.nodes st → ∀ r, lLoop O G.sadj γ tw G.nodes fuel st it = some r → LInv G.nodes r.1 := by
+  intro fuel
+  induction fuel with
+  | zero => intro st it _ r hr; simp [lLoop] at hr
+  | succ f ih =>
+    intro st it h r hr
+    unfold lLoop at hr
+    simp only at hr
+    split at hr
+    · exact ih _ _ (lPass_inv O G γ tw h) r hr
+    · simp only [Option.some.injEq] at hr
+      subst hr
+      exact lPass_inv O G γ tw h
+
+theorem partition_of_inv {α} {nodes : List Nat} {st : LSt α} (h : LInv nodes st) :
+    IsPartition nodes (st.cnodes.filter fun c => !c.isEmpty) := by
+  have hget : ∀ c ∈ st.cnodes, ∃ i, i < nodes.length ∧ c = st.cnodes.getD i [] := by
+    intro c hc
+    obtain ⟨i, hi, rfl⟩ := List.getElem_of_mem hc
+    exact ⟨i, h.len ▸ hi, (getD_of_lt _ hi []).symm⟩
+  constructor
+  · intro c hc
+    have := (List.mem_filter.1 hc).2
+    intro hnil; subst hnil; simp at this
+  · intro c hc
+    obtain ⟨i, _, rfl⟩ := hget c (List.mem_filter.1 hc).1
+    exact h.nodup i
+  · intro c hc v hv
+    obtain ⟨i, _, rfl⟩ := hget c (List.mem_filter.1 hc).1
+    exact h.sub i v hv
+  · intro v hv
+    have hlt := h.lt v hv
+    have hmem : v ∈ st.cnodes.getD (aget st.n2c v 0) [] := (h.iff v hv _ hlt).2 rfl
+    have hlt' : aget st.n2c v 0 < st.cnodes.length := h.len ▸ hlt
+    rw [getD_of_lt _ hlt'] at hmem
+    refine ⟨_, List.mem_filter.2 ⟨List.getElem_mem hlt', ?_⟩, hmem⟩
+    cases hq : st.cnodes[aget st.n2c v 0] with
+    | nil => rw [hq] at hmem; cases hmem
+    | cons a l => rfl
+  · apply List.Pairwise.filter
+    rw [List.pairwise_iff_getElem]
+    intro i j hi hj hij v hvi hvj
+    have hi' : i < nodes.length := h.len ▸ hi
+    have hj' : j < nodes.length := h.len ▸ hj
+    rw [← getD_of_lt _ hi []] at hvi
+    rw [← getD_of_lt _ hj []] at hvj
+    have hvn := h.sub i v hvi
+    have e1 := (h.iff v hvn i hi').1 hvi
+    have e2 := (h.iff v hvn j hj').1 hvj
+    omega
+
+theorem singletons_partition {nodes : List Nat} (hn : nodes.Nodup) :
+    IsPartition nodes (nodes.map fun v => [v]) := by
+  constructor
+  · intro c hc; obtain ⟨v, _, rfl⟩ := List.mem_map.1 hc; simp
+  · intro c hc; obtain ⟨v, _, rfl⟩ := List.mem_map.1 hc; simp
+  · intro c hc v hv
+    obtain ⟨u, hu, rfl⟩ := List.mem_map.1 hc
+    simp only [List.mem_singleton] at hv; subst hv; exact hu
+  · intro v hv; exact ⟨[v], List.mem_map.2 ⟨v, hv, rfl⟩, by simp⟩
+  · rw [List.pairwise_map]
+    refine hn.imp ?_
+    intro a b hab v hv hv'
+    simp only [List.mem_singleton] at hv hv'
+    exact hab (hv ▸ hv')
+
+/-! ### repeated deletion computes the greatest set with all degrees ≥ k -/
+
+theorem nodup_subset_length {l1 l2 : List Nat} (h : l1.Nodup) (hs : ∀ x ∈ l1, x ∈ l2) :
+    l1.length ≤ l2.length :=
+  length_le_of_inj (fun a b => a = b) l1 l2
+    (h.imp (fun hab _ _ h1 h2 => hab (h1.trans h2.symm))) (fun a ha => ⟨a, hs a ha, rfl⟩)
+
+theorem degIn_mono (G : Graph) {T S : List Nat} (hT : T.Nodup) (hsub : ∀ x ∈ T, x ∈ S) (v : Nat) :
+    degIn G T v ≤ degIn G S v := by
+  unfold degIn
+  apply nodup_subset_length (hT.sublist List.filter_sublist)
+  intro x hx
+  rw [List.mem_filter] at hx ⊢
+  exact ⟨hsub x hx.1, hx.2⟩
+
+theorem degIn_le_length (G : Graph) (S : List Nat) (v : Nat) : degIn G S v ≤ S.length :=
+  List.length_filter_le _ _
+
+theorem peel_spec (G : Graph) (k : Nat) : ∀ (fuel : Nat) (S : List Nat), S.length ≤ fuel →
+    (peel G k fuel S).Sublist S ∧
+    (∀ v ∈ peel G k fuel S, k ≤ degIn G (peel G k fuel S) v) ∧
+    (∀ T : List Nat, T.Nodup → (∀ v ∈ T, v ∈ S) → (∀ v ∈ T, k ≤ degIn G T v) →
+      ∀ v ∈ T, v ∈ peel G k fuel S) := by
+  intro fuel
+  induction fuel with
+  | zero =>
+    intro S hS
+    have : S = [] := List.eq_nil_of_length_eq_zero (Nat.le_zero.1 hS)
+    subst this
+    exact ⟨List.Sublist.refl _, by simp [peel], fun T _ hsub _ v hv => hsub v hv⟩
+  | succ f ih =>
+    intro S hS
+    unfold peel
+    simp only
+    split
+    · rename_i heq
+      have heq' : (peelRound G k S).length = S.length := by simpa using heq
+      refine ⟨List.Sublist.refl _, ?_, fun T _ hsub _ v hv => hsub v hv⟩
+      intro v hv
+      have := (List.length_filter_eq_length_iff.1 heq') v hv
+      simpa using this
+    · rename_i hne
+      have hne' : (peelRound G k S).length ≠ S.length := by simpa using hne
+      have hle : (peelRound G k S).length ≤ S.length := List.length_filter_le _ _
+      obtain ⟨h1, h2, h3⟩ := ih (peelRound G k S) (by omega)
+      refine ⟨h1.trans List.filter_sublist, h2, ?_⟩
+      intro T hT hsub hdeg
+      apply h3 T hT _ hdeg
+      intro v hv
+      unfold peelRound
+      rw [List.mem_filter]
+      exact ⟨hsub v hv, by simpa using Nat.le_trans (hdeg v hv) (degIn_mono G hT hsub v)⟩
+
+theorem kcoreDef_zero (G : Graph) : kcoreDef G 0 = G.nodes := by
+  unfold kcoreDef
+  cases h : G.nodes.length with
+  | zero => rfl
+  | succ n =>
+    unfold peel
+    have : peelRound G 0 G.nodes = G.nodes := by
+      unfold peelRound; rw [List.filter_eq_self]; intro a _; simp
+    simp [this]
+
+theorem foldl_last (P : Nat → Bool) : ∀ m : Nat,
+    (∀ k, k < m → P k = true → k ≤ (List.range m).foldl (fun best k => if P k then k else best) 0) ∧
+    ((List.range m).foldl (fun best k => if P k then k else best) 0 = 0 ∨
+      P ((List.range m).foldl (fun best k => if P k then k else best) 0) = true) := by
+  intro m
+  induction m with
+  | zero => simp
+  | succ m ih =>
+    rw [List.range_succ, List.foldl_append]
+    simp only [List.foldl_cons, List.foldl_nil]
+    by_cases hp : P m = true
+    · simp only [hp, if_true]
+      exact ⟨fun k hk _ => by omega, Or.inr trivial⟩
+    · simp only [hp]
+      refine ⟨?_, ih.2⟩
+      intro k hk hpk
+      have : k ≠ m := fun h => hp (h ▸ hpk)
+      exact ih.1 k (by omega) hpk
+
 end Solvor.Net
